@@ -20,9 +20,16 @@ RULE = ("Generated point arrays N in [0,80], d in [1,4] of six kinds (uniform fl
         "compared with range(N), every kNN and radius answer with a brute-force scan of the stored values (integer arithmetic "
         "when all coordinates are dyadic, else 1e-12 x coordinate magnitude); after every call the caller's point array, "
         "tree.points and the query object must be unchanged; for a third of the queries the returned list is overwritten and "
-        "the call repeated; one case in eight starts with a query of the wrong dimension. Sub-checks: 'queries', 'build' "
+        "the call repeated; one case in eight starts with a query of the wrong dimension. Object histories: in two thirds of "
+        "the cases ONE query buffer (ndarray / list / Vec) is overwritten in place for every query, half of the queries keep "
+        "the k and r of the previous one; a third of the cases build a 2nd/3rd tree on the same rows in another order after "
+        "dropping the previous tree (new array, or the caller's array overwritten in place) or next to it (then the first "
+        "tree is queried again); copy / deepcopy / pickle clones of the tree answer the same queries; k up to 2**64, "
+        "r up to 1e300, r within 1e-5..1e-9 relative of a point distance, integer-typed query positions. "
+        "Sub-checks: 'queries', 'build' "
         "(termination certificate + leaf partition only; a diverging build is discarded in 'queries'), 'large' (seed-generated "
-        "clouds of 100-400 or 1000-5000 points, same oracles). non-trivial = N > leaf size (the tree has an inner node) and, "
+        "clouds of 100-400, 255/256/257/511/512/513 or 1000-5000 points, leaf sizes up to 100, same oracles), 'huge' (65535 / "
+        "65536 / 65537 points). non-trivial = N > leaf size (the tree has an inner node) and, "
         "for queries, some query has k>1 or r>0; distinct = distinct realised (points, dtype, parameters, queries).")
 ASSUMPTIONS = ["coordinates are finite, of magnitude <= 1e14 (float16 arrays <= 2e4) - no overflow/underflow of squared "
                "distances is probed; query points and radii are float64 values (radii possibly passed as np.float32 objects "
